@@ -158,6 +158,26 @@ pub enum Op17 {
     IterHoldingR(u8),
     IterHoldingW(u8),
     IterMutHoldingR(u8),
+    /// create the resource through the entry API (`World::entry().or_insert_with`): inserts only if absent
+    EntryInsert(u8),
+    /// create the resource through a default provider (`World::setup::<Read<T>>()`): inserts only if absent
+    SetupRead(u8),
+    /// decoy: a value of type i under dynamic id 1 (never what a meta table converts or yields)
+    InsertDyn(u8),
+    RemoveDyn(u8),
+}
+
+/// Alphabet of the creation-path sweep: three registered types, every way of creating / removing a resource
+/// (insert, entry API, default provider, a decoy under a dynamic id), lookups and iteration.
+pub fn alphabet_paths() -> Vec<Op17> {
+    let mut v = Vec::new();
+    for i in 0..3u8 {
+        v.push(Op17::Register(i));
+        v.push(Op17::Insert(i));
+        v.push(Op17::Remove(i));
+    }
+    v.extend([Op17::EntryInsert(0), Op17::EntryInsert(1), Op17::SetupRead(1), Op17::SetupRead(2), Op17::InsertDyn(1), Op17::RemoveDyn(1), Op17::InsertDyn(4), Op17::Get(1), Op17::GetMut(2), Op17::Iter, Op17::IterMut]);
+    v
 }
 
 pub fn alphabet() -> Vec<Op17> {
@@ -191,6 +211,9 @@ struct Model {
     /// the registration of the type with the address-changing cast was rejected by a panic (an implementation may
     /// reject it there instead of at the first conversion); the type then counts as not registered
     rejected_bad: bool,
+    /// how the present resource was created: 0 insert, 1 entry API, 2 default provider
+    prov: [u8; NT],
+    dyn_present: [bool; NT],
 }
 
 fn rid(i: u8) -> ResourceId {
@@ -335,12 +358,51 @@ pub fn run_history(h: &[Op17]) -> Result<Vec<u8>, Fail> {
             }
             Op17::Insert(i) => {
                 insert(&mut w, i);
+                m.prov[i as usize] = 0;
                 m.present[i as usize] = true;
                 m.count[i as usize] = if i == 0 { m.count[0] } else { 0 };
             }
             Op17::Remove(i) => {
                 remove(&mut w, i);
                 m.present[i as usize] = false;
+                m.prov[i as usize] = 0;
+            }
+            Op17::EntryInsert(i) => {
+                match i {
+                    0 => drop(w.entry::<Mz>().or_insert_with(|| Mz)),
+                    _ => drop(w.entry::<Ms>().or_insert_with(|| Ms(0))),
+                }
+                let i = if i == 0 { 0usize } else { 1 };
+                if !m.present[i] {
+                    m.present[i] = true;
+                    m.prov[i] = 1;
+                    if i != 0 {
+                        m.count[i] = 0;
+                    }
+                }
+            }
+            Op17::SetupRead(i) => {
+                match i {
+                    1 => w.setup::<shred::Read<Ms>>(),
+                    _ => w.setup::<shred::Write<Ml>>(),
+                }
+                let i = if i == 1 { 1usize } else { 2 };
+                if !m.present[i] {
+                    m.present[i] = true;
+                    m.prov[i] = 2;
+                    m.count[i] = 0;
+                }
+            }
+            Op17::InsertDyn(i) => {
+                match i {
+                    1 => w.insert_by_id(ResourceId::new_with_dynamic_id::<Ms>(1), Ms(77)),
+                    _ => w.insert_by_id(ResourceId::new_with_dynamic_id::<Mu>(1), Mu(78)),
+                }
+                m.dyn_present[if i == 1 { 1 } else { 4 }] = true;
+            }
+            Op17::RemoveDyn(_) => {
+                drop(w.remove_by_id::<Ms>(ResourceId::new_with_dynamic_id::<Ms>(1)));
+                m.dyn_present[1] = false;
             }
             Op17::Get(i) | Op17::GetMut(i) => {
                 if !m.present[i as usize] {
@@ -509,6 +571,21 @@ pub fn run_history(h: &[Op17]) -> Result<Vec<u8>, Fail> {
             }
         }
     }
+    // what the table yields over the history's own world, whichever way its resources were created
+    if !(m.reg.contains(&5) && m.present[5]) {
+        let want: Vec<u8> = m.reg.iter().copied().filter(|i| m.present[*i as usize]).collect();
+        for mutably in [false, true] {
+            let got: Result<Vec<u8>, String> = catch_unwind(AssertUnwindSafe(|| if mutably { t.iter_mut(&w).map(|o| o.tag()).collect::<Vec<u8>>() } else { t.iter(&w).map(|o| o.tag()).collect::<Vec<u8>>() })).map_err(|p| payload_str(&*p));
+            match got {
+                Err(e) => return Err(("iteration-panicked".into(), format!("iterating the world after the history panicked: {}", e), h.len())),
+                Ok(g) if g != want => {
+                    let sig = if g.len() != want.len() { "iteration-wrong-set" } else { "iteration-wrong-order" };
+                    return Err((sig.into(), format!("{} over the history's world yields types {:?}, expected {:?} (first-registration order {:?}, present {:?}, created by {:?} [0 insert, 1 entry API, 2 default provider], decoys under a dynamic id {:?})", if mutably { "iter_mut" } else { "iter" }, g, want, m.reg, m.present, m.prov, m.dyn_present), h.len()));
+                }
+                Ok(_) => {}
+            }
+        }
+    }
     // observed state: what the table yields over a probe world in which every good type is present
     // (this reads the registration tables themselves, so merged states really have the same futures)
     let mut probe = World::empty();
@@ -561,7 +638,7 @@ pub fn run_history(h: &[Op17]) -> Result<Vec<u8>, Fail> {
     key.push(m.rejected_bad as u8);
     key.push(99);
     for i in 0..NT {
-        key.push(m.present[i] as u8);
+        key.push(m.present[i] as u8 | m.prov[i] << 1 | (m.dyn_present[i] as u8) << 3);
     }
     Ok(key)
 }
@@ -585,7 +662,10 @@ fn finding(sig: String, msg: String, h: &[Op17], at: usize) -> Finding {
 }
 
 pub fn run(depth: usize, deadline: std::time::Instant, threads: usize, col: &mut Collector) -> (C17Stats, Vec<Value>) {
-    let alpha = alphabet();
+    run_with(alphabet(), depth, deadline, threads, col)
+}
+
+pub fn run_with(alpha: Vec<Op17>, depth: usize, deadline: std::time::Instant, threads: usize, col: &mut Collector) -> (C17Stats, Vec<Value>) {
     let mut st = C17Stats { histories: 0, states: 0, transitions: 0, max_depth: 0, capped: false };
     let mut seen: HashSet<Vec<u8>> = HashSet::new();
     let mut frontier: VecDeque<Vec<Op17>> = VecDeque::new();
